@@ -305,7 +305,10 @@ PROPS["C14"] = dict(
                "source of distinctness; C14_single_insertion_{boundary,inner}_images: the exact images after a successful "
                "single insertion -- two consecutive segments, both sides glued segment by segment, every other image untouched; "
                "C14_single_insertion_position: the new vertex carries the point at the requested relative position (midpoint by "
-               "default) under the orbit-minimum identifier of the resulting map, every other coordinate slot untouched)",
+               "default) under the orbit-minimum identifier of the resulting map, every other coordinate slot untouched; and for ANY "
+               "number of vertices: the kernel refines a pure function on images (C14_insertion_refines_pure) which, on an interior "
+               "two-dart edge, yields k+1 consecutive segments on both sides glued segment by segment, everything else untouched "
+               "(C14_insertion_inner_segments, by induction over the spare darts; Map2/InsertManyTopo.v))",
     technique="Coq model of the kernel + correspondence + extracted Coq specification as per-run validator",
     families=[
         Family("kern-insert", "core2", r_kern("insert", 1500, 30000), 1, [(7, "insert_spec", INS_CLASSES)]),
